@@ -78,6 +78,7 @@ pub fn main(args: &[String]) {
     let mut steps = 0u64;
     let mut hidden = 0u64;
     let mut drifts = 0u64;
+    let mut class_drifts = 0u64;
     let mut readbacks = 0u64;
     let mut refused = 0u64;
     let mut drift_samples: Vec<Value> = vec![];
@@ -115,10 +116,21 @@ pub fn main(args: &[String]) {
             trace.push(json!({"lab": lab, "got": {"res": res, "id": id}}));
             let want = gets(lab, "res");
             if res != want {
-                let kind = if want == "EShort" && res == "Ok" { "short-source-ok" } else { "wrong-result" };
-                bad = Some(json!({"kind": kind, "want": want, "got": res}));
+                // the statements fix WHETHER a call succeeds, not which error it returns nor which ids are handed out
+                if want == "Ok" || res == "Ok" {
+                    let kind = if want == "EShort" { "short-source-ok" } else if want == "Ok" { "valid-call-refused" } else { "invalid-call-accepted" };
+                    bad = Some(json!({"kind": kind, "want": want, "got": res}));
+                } else {
+                    class_drifts += 1;
+                    if drift_samples.len() < 5 {
+                        drift_samples.push(json!({"run": ri, "par": run["par"], "step": si, "what": "error class", "model": want, "real": res}));
+                    }
+                }
             } else if gets(lab, "op") == "start" && res == "Ok" && lab.get("id").and_then(Value::as_u64) != id {
-                bad = Some(json!({"kind": "wrong-id", "want": lab["id"], "got": id}));
+                class_drifts += 1;
+                if drift_samples.len() < 5 {
+                    drift_samples.push(json!({"run": ri, "par": run["par"], "step": si, "what": "id handed out", "model": lab["id"], "real": id}));
+                }
             }
             let after = d.hidden();
             if bad.is_none() {
@@ -156,7 +168,7 @@ pub fn main(args: &[String]) {
         }
     }
     write_json(&args[1], &json!({
-        "runs": nruns, "steps": steps, "hidden_compared": hidden, "drifts": drifts, "drift_samples": drift_samples,
+        "runs": nruns, "steps": steps, "hidden_compared": hidden, "drifts": drifts + class_drifts, "drift_samples": drift_samples,
         "readbacks": readbacks, "refused_calls": refused, "violations": violations, "samples": samples,
         "constants": mla::verif::constants().iter().map(|(k, v)| (k.to_string(), json!(v))).collect::<serde_json::Map<_, _>>(),
     }));
